@@ -83,6 +83,18 @@ PinnedOf(b, c) ==
         SliderAttackers([b EXCEPT ![t] = Empty], k, Other(c)) \ base # {}}
 Pinned(pos) == PinnedOf(pos.b, pos.stm)
 
+(* The same set computed by walking outwards from the king: the first man on a *)
+(* ray is the king's own and the next man beyond it is an enemy slider moving  *)
+(* along that ray.  Cheaper; MCBoard.Lemma1 asserts it equals the declarative  *)
+(* definition on every expanded state.                                         *)
+PinnedRay(b, c) ==
+  LET k   == KingSq(b, c)
+      occ == Occ(b)
+      on(d) == LET t == FirstOn(occ, k, d)
+               IN IF t = NoSq \/ ColorOf(b[t]) # c THEN {}
+                  ELSE IF SliderOn(b, occ, t, d, Other(c)) # {} THEN {t} ELSE {}
+  IN UNION {on(d) : d \in AllDirs}
+
 (***************************************************************************)
 (* Piece movement (Art. 3.2 - 3.8).                                        *)
 (***************************************************************************)
